@@ -1,5 +1,5 @@
 from circus.commands.base import Command
-from circus.exc import ArgumentError
+from circus.exc import ArgumentError, MessageError
 from circus.util import TransformableFuture
 
 
@@ -68,6 +68,12 @@ class IncrProc(Command):
             resp.set_upstream_future(watcher.incr(nb))
             resp.set_transform_function(lambda x: {"numprocesses": x})
             return resp
+
+    def validate(self, props):
+        super(IncrProc, self).validate(props)
+        nb = props.get('nb', 1)
+        if isinstance(nb, bool) or not isinstance(nb, int):
+            raise MessageError("'nb' isn't an integer")
 
     def console_msg(self, msg):
         if msg.get("status") == "ok":
